@@ -5,6 +5,7 @@ import (
 	"errors"
 	"fmt"
 	"io"
+	"net"
 	"runtime"
 	"sync"
 	"syscall"
@@ -30,12 +31,14 @@ func spinRealMicros(us int64) {
 }
 
 // Errors returned by the simulated transport.
+// Like real transports they wrap the standard sentinels a caller may look for
+// (net.ErrClosed after a local Close, ECONNRESET, EPIPE).
 var (
-	ErrSimReset  = errors.New("simnet: connection reset by peer")
-	ErrSimClosed = errors.New("simnet: use of closed connection")
+	ErrSimReset  = fmt.Errorf("simnet: connection reset by peer (%w)", syscall.ECONNRESET)
+	ErrSimClosed = fmt.Errorf("simnet: %w", net.ErrClosed)
 	ErrSimWrite  = errors.New("simnet: injected write error")
 	ErrSimDial   = errors.New("simnet: injected dial error")
-	ErrSimBroken = errors.New("simnet: broken pipe")
+	ErrSimBroken = fmt.Errorf("simnet: broken pipe (%w)", syscall.EPIPE)
 	// ErrSimWriteEOF wraps io.EOF: it is not io.EOF itself and must be treated as
 	// any other transport error
 	ErrSimWriteEOF = fmt.Errorf("simnet: injected write error (%w)", io.EOF)
